@@ -77,8 +77,9 @@ def run_dir(rid, kind, names, stray, ignore, strict, enc):
     return rec
 
 
-def collect(it, tree):
-    """iterate a generator of simfiles (or (simfile, path)) recording the outcome per directory"""
+def collect(it, tree, encs=None):
+    """iterate a generator of simfiles (or (simfile, path)) recording the outcome per directory
+    (encs: collects the encoding= of EVERY open made on the way, directory after directory)"""
     out = []
     while True:
         tree.opened.clear()
@@ -87,10 +88,14 @@ def collect(it, tree):
         except StopIteration:
             break
         except Exception as e:  # noqa
+            if encs is not None:
+                encs.extend(e_ or "" for _, m, e_ in tree.opened)
             d = tree.listed[-1][0] if tree.listed else ""
             f = tree.opened[-1][0] if tree.opened else None
             out.append({"dir": cps(os.path.basename(d)), "st": type(e).__name__, "file": dc.n_(dc.base(tree, f)) if type(e).__name__ == "MSDParserError" else dc.NONE})
             break
+        if encs is not None:
+            encs.extend(e_ or "" for _, m, e_ in tree.opened)
         f = tree.opened[-1][0] if tree.opened else None
         out.append({"dir": cps(os.path.basename(os.path.dirname(f))) if f else dc.NONE, "st": "ok", "file": dc.n_(dc.base(tree, f))})
     return out
@@ -116,7 +121,7 @@ def run_pack(rid, kind, entries, ignore, strict, enc, order=None):
             orders["pack/" + e["name"] if kind != "native" else os.path.join("pack", e["name"])] = list(e["sub"])
     tree = dc.Tree(kind, {"pack": layout, "beside.sm": dc.SM_TEXT}, order=orders)
     rec = {"t": "pack", "id": rid, "entries": [], "ignore": ignore, "strict": strict, "enc": enc or "", "dirs": [], "name": [], "packname": cps("pack"),
-           "simfiles": [], "openpack": [], "encodings": [], "st": "ok"}
+           "simfiles": [], "simfiles2": [], "openpack": [], "encodings": [], "st": "ok"}
     try:
         p = tree.path("pack")
         kw = {"strict": strict}
@@ -139,14 +144,16 @@ def run_pack(rid, kind, entries, ignore, strict, enc, order=None):
             es.append({"name": cps(n), "isdir": e["isdir"], "sub": [cps(x) for x in seen.get(key, e["sub"] if e["isdir"] else [])],
                        "stray": [cps(x) for x in e.get("stray", [])]})
         rec["entries"] = es
-        rec["simfiles"] = collect(sp.simfiles(**kw), tree)
-        encs = [e or "" for _, m, e in tree.opened if enc]
+        encs = [] if enc else None
+        rec["simfiles"] = collect(sp.simfiles(**kw), tree, encs)
+        # the SAME pack object walked a second time: same directories, same outcomes (also after a walk that raised)
+        rec["simfiles2"] = collect(sp.simfiles(**kw), tree, encs)
         if not ignore:
             gen = simfile.openpack(p, filesystem=tree.fs, **kw)
-            rec["openpack"] = collect((sf for sf, path in gen), tree)
+            rec["openpack"] = collect((sf for sf, path in gen), tree, encs)
         else:
             rec["openpack"] = rec["simfiles"]
-        rec["encodings"] = encs
+        rec["encodings"] = encs or []
     except Exception as e:  # noqa
         rec["st"] = type(e).__name__
     finally:
